@@ -463,7 +463,7 @@ theorem touchEq_option_elim {t : Target} {a a' : Arr} {i : Nat} (h : touchEq (.o
 
 /-! ### scalar reads, dictionary lookups -/
 
-theorem primGet_some {v : Option Bits} {vals : List Int} {i : Nat} {k : Int}
+theorem primGet_some_valid {v : Option Bits} {vals : List Int} {i : Nat} {k : Int}
     (h : primGet Fixes.all v vals i = .ok (some k)) : vals[i]? = some k ∧ isValid v i = .ok true := by
   unfold primGet at h
   split at h
@@ -500,7 +500,7 @@ theorem dictGetStr_agree {o : Bool} {p : Target} {ks vs ks' vs' : Arr} {i : Nat}
         · unfold tryIntoUsize
           by_cases h0 : 0 ≤ k
           · have hg' : primGet Fixes.all v vals i = .ok (some k) := by rw [primGet_congr hsl]; exact getRequired_ok hg
-            obtain ⟨hkey, hval⟩ := primGet_some hg'
+            obtain ⟨hkey, hval⟩ := primGet_some_valid hg'
             have hr := hvs ty v vals vty vv voffs vdata k rfl rfl hval hkey h0
             obtain ⟨vv2, voffs2, vdata2, he2, hs2⟩ := touchEqW_bytes hr
             cases he2
